@@ -25,8 +25,14 @@ META = {
   "reentrant_sem_new_at*: two threads open different names; the second thread's whole p_semaphore_new runs at the k-th allocator entry of the first (one query per k, real SHA-1)",
   "initval_*: init_val is a fully symbolic pint; negative values are the documented invalid argument (NULL); histories draw init from 0..VMAX",
   "hist*_eintr2: sem_wait fails with EINTR (no effect) at a symbolic subset (<=2) of its invocations inside every acquire of the history",
+  "*_sysv: the same harnesses against src/psemaphore-sysv.c (+ the key-file helpers of pipc.c) over the System V flavour of models/kernel_ipc.c: semget/semctl(SETVAL, IPC_RMID)/semop "
+  "with EEXIST/ENOENT/EINVAL|EIDRM/ERANGE semantics, new sets start at 0, SEMVMX = 32767, SEM_UNDO adjustments applied when a process is killed and cleared by SETVAL, "
+  "key file = name ledger behind open(O_CREAT|O_EXCL)/stat/unlink, ftok = injective function of the key file PATH (inode not modelled), ids never reused",
+  "*_sysv reference: CREATE on an existing name resets the value of the same set (all attached handles keep sharing it); an owner free removes the set behind the handle's own id; "
+  "a handle whose set was removed re-attaches at its next acquire/release with the mode and initial value it was opened with, which the reference treats as one more open at that moment "
+  "(the interrupted release is not repeated by the library); hist*_after2opens: the first two calls are forced to be opens of name a through handles 0 and 1",
   "allocator never fails (C18), EINTR only in hist*_eintr* (rest: C19), printf empty"],
- "outside": ["kernel semantics themselves (model trusted; SEM_VALUE_MAX = INT_MAX as on this platform)", "psemaphore-sysv.c (not built on this platform)", "more than 2 processes / 3 handles / 2 names", "names other than the concrete ones used (key collisions of SHA-1 prefixes are possible in principle)",
+ "outside": ["kernel semantics themselves (model trusted; SEM_VALUE_MAX = INT_MAX as on this platform)", "psemaphore-sysv.c beyond the *_sysv queries (nested acquire/release of the other process: 4.3 M steps, out of memory; ftok depending on the inode of a re-created key file; semid reuse); pshm-sysv.c (its segment lifetime - removal when the last process detaches - needs its own reference model)", "more than 2 processes / 3 handles / 2 names", "names other than the concrete ones used (key collisions of SHA-1 prefixes are possible in principle)",
              "histories longer than the stated number of calls", "counter values above VMAX+2",
              "concurrent p_semaphore_new / p_semaphore_free interleavings (the property quantifies interleavings of acquirers/releasers; creation races of the "
              "lock semaphore are covered under C07 race_*)",
@@ -39,17 +45,18 @@ MANIFEST = {
                "process before any of its system calls is followed by the documented recovery, which must end with a fresh counter; the initial value is additionally decided for ALL 2^32 pint values "
                "(fresh counter holds exactly the given value, a later OPEN with any other value sees it unchanged). The rules only differ from a trivial "
                "implementation on histories where the name already exists - exactly the histories the unit tests avoid - and the state space is small enough to decide exhaustively within the bound.",
- "level_note": "Trusted: CBMC 6.11 + SAT back end; kernel model (POSIX semantics, 2 processes); key stub (real SHA-1 key function decided separately on the same names). "
+ "level_note": "Configurations: POSIX (psemaphore-posix.c, the unit built here) and System V (psemaphore-sysv.c, *_sysv queries over the System V flavour of the model). Trusted: CBMC 6.11 + SAT back end; kernel model (POSIX / System V semantics, 2 processes); key stub (real SHA-1 key function decided separately on the same names). "
                "Bounds: <=5 (quick) / <=6 (thorough) calls, 2 names, 3 handles, initial values 0..2/3 in histories and all 2^32 values in initval_*, preemption depth 1 for acquire/release, crash at any of <=12 system calls.",
  "technique": "CBMC bounded symbolic execution of real units vs. generation-counter reference over a POSIX IPC kernel model; symbolic crash switch; nested-atomic emulation",
  "design_ref": "DESIGN.md §3 C06",
 }
-def hist(n, nh, preempt=False, kfdemo=False, vmax=2, timeout=1500, eintr=0):
+def hist(n, nh, preempt=False, kfdemo=False, vmax=2, timeout=1500, eintr=0, prologue=False):
     defs = ["NOPS=%d" % n, "NH=%d" % nh, "VMAX=%d" % vmax, "VK_NSEM=%d" % (n + 1), "VK_NSEMH=%d" % (n + 1)]
     if preempt: defs.append("PREEMPT")
     if kfdemo: defs.append("KF_DEMO_CREATE_EXISTING")
     if eintr: defs.append("EINTR_MAX=%d" % eintr)
-    return Q("hist%d_h%d%s%s%s" % (n, nh, "_preempt" if preempt else "", "_kfdemo" if kfdemo else "", "_eintr%d" % eintr if eintr else ""), "harness/C06_hist.c",
+    if prologue: defs.append("PROLOGUE2")
+    return Q("hist%d_h%d%s%s%s" % (n, nh, "_preempt" if preempt else "", "_kfdemo" if kfdemo else "", "_eintr%d" % eintr if eintr else "") + ("_after2opens" if prologue else ""), "harness/C06_hist.c",
              units=SEM_UNITS, models=KM, hdefs=defs, includes=REDIR, unwindset=dict(UW, **{"harness.0": n + 1, "p_semaphore_acquire.0": eintr + 2}), timeout=timeout, funcs=FUNCS,
              kf="C06_create_existing" if kfdemo else None,
              bounds={"calls": n, "names": 2, "handles": nh, "processes": 2, "init_values": "0..%d" % vmax,
@@ -81,11 +88,30 @@ def names(n, kind=0):
              flags=["--max-field-sensitivity-array-size", "256"],
              funcs=["p_semaphore_new", "p_shm_new", "p_shm_buffer_new", "p_ipc_get_platform_key"][kind:kind + 1] + ["p_ipc_get_platform_key"],
              bounds={"name_length": n, "names": "A, A with another last character, A with another first character, an equal copy of A (concrete)"})
+# ---- System V configuration: the same harnesses against src/psemaphore-sysv.c over the System V flavour of the kernel model ----
+SYSV_UNITS = ["src/psemaphore-sysv.c", "src/pipc.c", "src/psysclose-unix.c", "src/perror.c", "src/pstring.c", "src/pmem.c"]
+SYSV_UW = {"p_semaphore_acquire.0": 2, "p_semaphore_acquire.1": 2, "p_semaphore_release.0": 2}
+def sysv(q, extra_uw=None):
+    q.name += "_sysv"
+    q.units = SYSV_UNITS
+    q.includes = ["models/redir_ipc_sysv.h"]
+    q.hdefs = list(q.hdefs) + ["SYSV", "VK_SYSV"]
+    q.remove_bodies = ["p_ipc_get_platform_key"]       # pipc.c is needed for the key-file helpers; the key itself comes from the stub
+    uw = {k: v for k, v in q.unwindset.items() if not k.startswith("pp_semaphore_create_handle")}
+    uw.update(SYSV_UW)
+    if extra_uw: uw.update(extra_uw)
+    q.unwindset = uw
+    q.funcs = ["p_semaphore_new", "pp_semaphore_create_handle", "pp_semaphore_clean_handle", "p_semaphore_take_ownership", "p_semaphore_acquire",
+               "p_semaphore_release", "p_semaphore_free", "p_ipc_unix_create_key_file", "p_ipc_unix_get_ftok_key"]
+    q.bounds = dict(q.bounds, configuration="System V (psemaphore-sysv.c)")
+    return q
 def reentrant():
     # p_semaphore_new on two different names by two threads, overlapping at each of the 10 allocator entries of the outer call (harness shared with C07)
     import C07
     return [C07.reentrant(0, k) for k in range(1, 11)]
 def queries(tier):
     if tier == "quick":
-        return [realkey()] + [names(n) for n in NAME_LENS] + reentrant() + [initval(False), initval(True), crash(3), hist(5, 3), hist(4, 3, preempt=True), hist(3, 2, eintr=2), hist(3, 2, kfdemo=True)]
-    return [realkey()] + [names(n) for n in NAME_LENS] + reentrant() + [initval(False), initval(True), crash(4), hist(6, 3, vmax=3, timeout=3000), hist(5, 3, preempt=True, timeout=3000), hist(4, 3, eintr=2), hist(3, 2, kfdemo=True)]
+        return [realkey()] + [names(n) for n in NAME_LENS] + reentrant() + [initval(False), initval(True), crash(3), hist(5, 3), hist(4, 3, preempt=True), hist(3, 2, eintr=2), hist(3, 2, kfdemo=True), sysv(hist(6, 2, prologue=True)), sysv(initval(False)), sysv(initval(True)), sysv(crash(3))]
+    return [realkey()] + [names(n) for n in NAME_LENS] + reentrant() + [initval(False), initval(True), crash(4), hist(6, 3, vmax=3, timeout=3000), hist(5, 3, preempt=True, timeout=3000), hist(4, 3, eintr=2), hist(6, 2, prologue=True), hist(3, 2, kfdemo=True),
+            sysv(hist(4, 3)), sysv(hist(6, 2, prologue=True)), sysv(hist(7, 2, prologue=True, timeout=3000)), 
+            sysv(hist(4, 2, eintr=2), {"p_semaphore_acquire.0": 4, "p_semaphore_acquire.1": 4}), sysv(initval(False)), sysv(initval(True)), sysv(crash(4))]
